@@ -64,6 +64,9 @@ def run(ck):
       for p in pr.preds:
         if p.name not in base or base[p.name]['kind'] != 'ok':
           continue
+        if res[p.name]['kind'] == 'too_big':
+          ck.features['sqlite-capacity-limit-skipped'] += 1
+          continue
         b0, b1 = M.norm_bag(base[p.name], p), M.norm_bag(res[p.name], p)
         kinds = sorted({a for part in vname[5:].split(';') if '=' in part for a in part.split('=')[1].split('+') if a != '-'})
         if b1 is None and ('at most 64 tables' in res[p.name].get('message', '') or 'parser stack overflow' in res[p.name].get('message', '')):
